@@ -324,6 +324,38 @@ def do_format_enum(case, ob, site):
         ob.fact('enum:str->val(%s)' % m.name, H.formatted_str_to_val(m.name, fmt, [_E]) == m.value, site + ':enum')
 
 
+def do_format_enum_history(case, ob, site):
+    """the enum_set argument of each call decides: two enum classes with the same name, used one after the other with the same
+    format string (two designs each with an `Op` enum)"""
+    import enum
+    Op1 = enum.IntEnum('Op', {'ADD': 1, 'SUB': 2})
+    Op2 = enum.IntEnum('Op', {'ADD': 5, 'MUL': 6})
+    fmt = 'e3/Op'
+    for first, second in ((Op1, Op2), (Op2, Op1)):
+        for m in first:
+            try:
+                got = (H.formatted_str_to_val(m.name, fmt, [first]), H.val_to_formatted_str(m.value, fmt, [first]))
+            except Exception as e:
+                got = repr(e)
+            ob.fact('enum-history:first:%s' % m.name, got == (m.value, m.name), site + ':enum-first', detail='%r, expected %r' % (got, (m.value, m.name)))
+        for m in second:
+            try:
+                got = (H.formatted_str_to_val(m.name, fmt, [second]), H.val_to_formatted_str(m.value, fmt, [second]))
+            except Exception as e:
+                got = repr(e)
+            ob.fact('enum-history:second:%s' % m.name, got == (m.value, m.name), site + ':enum-second',
+                    detail='after the same format was used with another enum class of that name: %r, expected %r' % (got, (m.value, m.name)))
+        # an enum_set that lacks the named enum is refused
+        try:
+            H.formatted_str_to_val('ADD', fmt, [_E])
+            refused = False
+        except pyrtl.PyrtlError:
+            refused = True
+        except Exception:
+            refused = False
+        ob.fact('enum-history:missing-enum-refused-with-PyrtlError', refused, site + ':enum-missing')
+
+
 def do_twos(case, ob, site):
     b = case['b']
     v = valvar('v', b + 3)
@@ -422,7 +454,7 @@ def do_bitpattern(case, ob, site):
 
 
 KINDS = {'infer': do_infer, 'const': do_const, 'vstr': do_vstr, 'signedint': do_signedint, 'format': do_format,
-         'format_enum': do_format_enum, 'twos': do_twos, 'bitpattern': do_bitpattern}
+         'format_enum': do_format_enum, 'format_enum_history': do_format_enum_history, 'twos': do_twos, 'bitpattern': do_bitpattern}
 
 
 def bounds(tier):
@@ -451,6 +483,7 @@ def cases(tier, seed):
         for b in range(1, 13 if tier == 'quick' else 25):
             out.append({'k': 'format', 'f': f, 'b': b})
     out.append({'k': 'format_enum'})
+    out.append({'k': 'format_enum_history'})
     for b in range(1, 11 if tier == 'quick' else 17):
         out.append({'k': 'twos', 'b': b})
     L = 6 if tier == 'quick' else 8
@@ -540,9 +573,14 @@ def run_case(case, ob, tier):
 def replay(cex):
     c = cex['case']
     k = c['k']
+    if k in ('format_enum', 'format_enum_history'):
+        from ..core import Obligations
+        ob = Obligations(PROP, c, 20000)
+        KINDS[k](c, ob, site_of(c))
+        bad = [(x['obligation'], x.get('detail')) for x in ob.sat]
+        return bool(bad), 'failing on the real helpers (plain ints and strings): %r' % bad[:4]
     val = cex.get('value')
-    if val is None and not cex.get('structural') and k != 'bitpattern':
-        return False, 'no model value recorded'
+XX
     try:
         if k in ('infer', 'const'):
             b, signed = c['b'], c['signed']
